@@ -95,6 +95,31 @@ type Raster struct {
 	Discard bool
 	NCube   int
 	NDraw   int
+	// OnDraw, when set, is called with the paint of every Draw.
+	OnDraw func(src image.Image)
+	// MaxAbs is the largest coordinate magnitude seen (NaN counts as +Inf).
+	MaxAbs float64
+}
+
+func (z *Raster) see(v ...float32) {
+	for _, x := range v {
+		a := float64(x)
+		if a < 0 {
+			a = -a
+		}
+		if a != a {
+			a = 1e300
+		}
+		if a > z.MaxAbs {
+			z.MaxAbs = a
+		}
+	}
+}
+
+// ResetLog forgets everything recorded so far (the object is reused).
+func (z *Raster) ResetLog() {
+	z.Calls = z.Calls[:0]
+	z.NMut, z.NCube, z.NDraw, z.MaxAbs = 0, 0, 0, 0
 }
 
 func (z *Raster) add(c RCall) {
@@ -116,6 +141,7 @@ func (z *Raster) Size() image.Point       { return image.Point{z.w, z.h} }
 func (z *Raster) Bounds() image.Rectangle { return image.Rect(0, 0, z.w, z.h) }
 func (z *Raster) Pen() (x, y float32)     { return z.penX, z.penY }
 func (z *Raster) MoveTo(ax, ay float32) {
+	z.see(ax, ay)
 	z.add(RCall{K: RMoveTo, A: [6]float32{ax, ay}, PenX: z.penX, PenY: z.penY})
 	z.penX, z.penY, z.firstX, z.firstY = ax, ay, ax, ay
 	if z.Fwd != nil {
@@ -123,6 +149,7 @@ func (z *Raster) MoveTo(ax, ay float32) {
 	}
 }
 func (z *Raster) LineTo(bx, by float32) {
+	z.see(bx, by)
 	z.add(RCall{K: RLineTo, A: [6]float32{bx, by}, PenX: z.penX, PenY: z.penY})
 	z.penX, z.penY = bx, by
 	if z.Fwd != nil {
@@ -130,6 +157,7 @@ func (z *Raster) LineTo(bx, by float32) {
 	}
 }
 func (z *Raster) QuadTo(bx, by, cx, cy float32) {
+	z.see(bx, by, cx, cy)
 	z.add(RCall{K: RQuadTo, A: [6]float32{bx, by, cx, cy}, PenX: z.penX, PenY: z.penY})
 	z.penX, z.penY = cx, cy
 	if z.Fwd != nil {
@@ -138,6 +166,7 @@ func (z *Raster) QuadTo(bx, by, cx, cy float32) {
 }
 func (z *Raster) CubeTo(bx, by, cx, cy, dx, dy float32) {
 	z.NCube++
+	z.see(bx, by, cx, cy, dx, dy)
 	z.add(RCall{K: RCubeTo, A: [6]float32{bx, by, cx, cy, dx, dy}, PenX: z.penX, PenY: z.penY})
 	z.penX, z.penY = dx, dy
 	if z.Fwd != nil {
@@ -192,6 +221,9 @@ func (z *Raster) Draw(r image.Rectangle, src image.Image, sp image.Point) {
 		c.Paint = SnapshotPaint(src, z.Probes)
 	}
 	z.add(c)
+	if z.OnDraw != nil {
+		z.OnDraw(src)
+	}
 	if z.Fwd != nil {
 		z.Fwd.Draw(r, src, sp)
 	}
